@@ -2,7 +2,10 @@ package main
 
 import (
 	"fmt"
+	"go/types"
 	"os"
+	"sort"
+	"strings"
 
 	"lbcheck/eng"
 	"lbcheck/ir"
@@ -15,13 +18,49 @@ func main() {
 		fmt.Println(err)
 		os.Exit(1)
 	}
-	n, bad := 0, 0
-	for _, o := range rules.ErrorGatesProbe(p, os.Args[1:]...) {
-		n++
-		if o.Status != eng.Discharged {
-			bad++
-			fmt.Println(o.Status, o.Construct, o.Pos, "::", o.Detail)
+	pk := p.ByPath[os.Args[1]]
+	scope := pk.Types.Scope()
+	names := scope.Names()
+	sort.Strings(names)
+	for _, n := range names {
+		tn, ok := scope.Lookup(n).(*types.TypeName)
+		if !ok {
+			continue
+		}
+		st, ok := tn.Type().Underlying().(*types.Struct)
+		if !ok {
+			continue
+		}
+		var mus []*types.Var
+		for i := 0; i < st.NumFields(); i++ {
+			f := st.Field(i)
+			ts := f.Type().String()
+			if ts == "sync.Mutex" || ts == "sync.RWMutex" {
+				mus = append(mus, f)
+			}
+		}
+		for i := 0; i < st.NumFields(); i++ {
+			f := st.Field(i)
+			if strings.HasPrefix(f.Type().String(), "sync.") {
+				continue
+			}
+			for _, mu := range mus {
+				obs := rules.LockTableProbe(p, os.Args[1], n, f.Name(), mu.Name())
+				good, bad := 0, 0
+				var where []string
+				for _, o := range obs {
+					if o.Status == eng.Discharged {
+						good++
+					} else {
+						bad++
+						where = append(where, o.Construct)
+					}
+				}
+				if good == 0 || bad > 3 {
+					continue
+				}
+				fmt.Printf("%s.%s under %s: ok %d bad %d %v\n", n, f.Name(), mu.Name(), good, bad, where)
+			}
 		}
 	}
-	fmt.Println("obligations", n, "failing", bad)
 }
